@@ -619,6 +619,8 @@ class ObjectMethod(DeserializationMethod):
         invalid_aggregates: Optional[list] = None
         if self.aggregate_fields:
             remain = data.keys() - self.all_aliases
+            # the discriminator key is not a pattern / additional property
+            remain.discard(discriminator)
             for flattened_field in self.flattened_fields:
                 flattened: dict = {
                     alias: data[alias]
